@@ -103,6 +103,13 @@ def echo_scripts(rnd, work):
             for sep in ("/", " ", ",", "|", "", ";", "\t"):
                 a, b = rnd.choice(vals), rnd.choice(vals)
                 cands += [a + sep + b, (a + sep + b).lower()]
+            # illegal answers that a normalisation could turn into a legal one: separators between the letters of a value, doubled letters,
+            # brackets / quotes / trailing punctuation around it
+            for v_ in vals:
+                for sep in (" ", "\t", "-", "_", ".", "\u200b", "/"):
+                    if len(v_) > 1:
+                        cands.append(sep.join(v_))
+                cands += [v_ + v_, "(" + v_ + ")", "[" + v_ + "]", "'" + v_ + "'", '"' + v_ + '"', v_ + ".", v_ + ",", v_ + ";", v_ + ":", ":" + v_, "=" + v_, v_ + "\u200b", "\ufeff" + v_, v_ + "\x00", v_[:1] + "\u0301" + v_[1:]]
             cands += [c_.lower() for c_ in cands]
             cands = [c_ for c_ in dict.fromkeys(cands) if c_.strip() and c_.strip().upper() not in legal]
             script = [corpus.VALS[ver][x][0] for x in metrics[:k]] + cands + [corpus.VALS[ver][x][0] for x in metrics[k:]]
